@@ -96,6 +96,22 @@ def run(ctx, variants=(("verif", "c04"), ("verif,unsafe", "c04u"))):
             broken.append({"kind": "obligation", "name": "lens: %d well-formed frames could not be walked" % nofields, "detail": ""})
         ctx.coverage["length_fields_mutated"] = ctx.coverage.get("length_fields_mutated", 0) + nfields
         ctx.coverage["v0_message_set_frames"] = len(v0)
+        # (a4) exactly ONE frame must be consumed: every case below is followed on the same connection by a second,
+        #      clean frame of the same type (correlation id 9) and both are decoded with one bufio.Reader:
+        #      honest frames whose record set has a stump / unknown-magic tail after its last batch; frames whose size
+        #      prefix ends the frame right after a length field; and the well-formed frames themselves
+        npipe = 0
+        for f, raw, fields in parsed + parsed0:
+            second = bytearray(raw); second[4:8] = b"\x00\x00\x00\x09"
+            firsts = [raw] + [b for _, b in codec.record_set_tails(raw, fields)]
+            if any(x["crc"] for x in fields) or ctx.tier == "thorough" or len(raw) <= 120:
+                firsts += codec.frame_ends_after(raw, fields)
+            for b in firsts:
+                cases.append("P%s %s %s.%s" % (f[0], f[1], b.hex(), bytes(second).hex()))
+                npipe += 1
+            for b in codec.tag_marker_recursion(raw, fields):
+                cases.append("%s %s %s" % (f[0], f[1], b.hex()))
+        ctx.coverage["pipelined_two_frame_cases"] = ctx.coverage.get("pipelined_two_frame_cases", 0) + npipe
         # (a'') the un-framed SASL token exchange on the Transport path (handshake v0): its only length field
         for h in ["0000000401020304", "00000000", "ffffffff", "80000000", "7fffffff0102", "fffffffe", "0000000501020304", "000000", "7ffffff0", "00010000" + "00" * 16]:
             cases.append("sasl 0 %s" % h)
@@ -134,7 +150,9 @@ def run(ctx, variants=(("verif", "c04"), ("verif,unsafe", "c04u"))):
         dis += ctx.correspond(got, orc, "ReadResponse on mutated frames (%s) <-> Model/Codec.lean readResponse" % tags)
         if any(d.get("kind") == "disagreement" and not d["holds_on_impl"] and d["op"].split(" ")[-1] not in lying_all for d in dis):
             break                       # failing inputs found: no need to spend the budget on the other build variant
-    ctx.coverage["rule"] = ("TRUNCATED STREAM: every well-formed response frame (Fetch with magic 0/1/2 record sets included) cut at every offset with "
+    ctx.coverage["rule"] = ("PIPELINED: two frames back to back on one connection (first: well-formed / record set with a stump of 1,5,16 bytes or an unknown-magic batch "
+                            "after its last batch, sizes honest / frame size ending the frame right after each length field; second: clean frame) - the second must decode to its own "
+                            "correlation id whenever the first decodes. TAG MARKER: tag id 2^64-1 (the `_ struct{}` marker's map key) with nested tag buffers. TRUNCATED STREAM: every well-formed response frame (Fetch with magic 0/1/2 record sets included) cut at every offset with "
                             "all announced sizes left consistent - outcome must be an error. DETERMINISTIC: every response type x version (Fetch: one frame per message-set format magic 0/1/2 with 3 records, keys, a header): "
                             "EVERY length/count field (frame size, string/bytes/array prefixes fixed and compact, tag-buffer counts, record-set size, message size, "
                             "batchLength, numRecords, v0/v1 key/value lengths, v2 record/key/value/header varints; positions computed from the schema by the oracle) x "
